@@ -33,14 +33,33 @@ func (w *World) checkContextConstruction(P string, f *Facts, r *Roles) {
 	if r.CtxSizeField >= 0 {
 		overridable[r.CtxSizeField] = true
 	}
-	// seed functions: exported functions of the package (the public entry points build the first context)
+	// the evaluator proper: everything reachable from the dispatcher, the registered handlers and the builtins. The
+	// seed context is built outside of it (by the public entry point or a constructor it calls) and is decided by
+	// the seed rules (C18 R18.1, C02 R02.3).
+	evalFns := map[*ssa.Function]bool{}
+	addRoot := func(fn *ssa.Function) {
+		for g := range staticReach(fn, func(x *ssa.Function) bool { return fnPkgKey(x) == "exec" }) {
+			evalFns[g] = true
+		}
+	}
+	if r.ExecContext != nil {
+		addRoot(r.ExecContext)
+	}
+	for _, h := range f.Handlers {
+		addRoot(h.Fn)
+	}
+	for _, b := range f.Builtins {
+		for _, fn := range b.impls() {
+			addRoot(fn)
+		}
+	}
 	isSeed := func(fn *ssa.Function) bool {
 		for g := fn; g != nil; g = g.Parent() {
-			if g.Parent() == nil && g.Object() != nil && g.Object().Exported() && g.Signature.Recv() == nil {
-				return true
+			if evalFns[g] {
+				return false
 			}
 		}
-		return false
+		return true
 	}
 	// completeValue: v is a complete context value
 	var completeFn func(fn *ssa.Function, depth int) bool
